@@ -17,11 +17,13 @@ type c13Client struct {
 	OffsetMs int    `json:"offsetMs"`
 	Req      genReq `json:"req"`
 	Scrape   bool   `json:"scrape,omitempty"` // a /metrics scrape instead of a /prove request
+	AbortMs  int    `json:"abortMs,omitempty"` // > 0: the client walks away (closes its connection) this long after sending
 }
 
 type c13Case struct {
-	Mode    string      `json:"mode"`
-	Clients []c13Client `json:"clients"`
+	Mode     string      `json:"mode"`
+	Clients  []c13Client `json:"clients"`
+	FollowUp *genReq     `json:"followUp,omitempty"` // a valid request sent after the round when a client walked away in it
 }
 
 func genC13(mode string) func(t *rapid.T) c13Case {
@@ -96,6 +98,22 @@ func genC13(mode string) func(t *rapid.T) c13Case {
 			}
 			c.Clients = append(c.Clients, cl)
 		}
+		if rapid.Bool().Draw(t, "with_aborts") {
+			// one or two clients with VALID requests that walk away while their request is queued or being proved
+			// (a timed-out or killed client): what happens to THEIR request is their business, every other client's
+			// response must still be its own, and the server must serve the next request normally
+			na := rapid.IntRange(1, 2).Draw(t, "aborts")
+			for a := 0; a < na; a++ {
+				m := genValidParams(t, mode, 3, 2)
+				cl := c13Client{OffsetMs: rapid.IntRange(0, 60).Draw(t, "abort_offset"), AbortMs: pick(t, "abort_after", 2, 10, 40, 120, 300, 800)}
+				cl.Req = genReq{Method: "POST", Body: m.writeDoc(styleHexLower), Class: "valid:client-walks-away", Expect: "valid", Hash: m.InputHash}
+				// early in the list so that other clients queue up behind it
+				pos := rapid.IntRange(0, 2).Draw(t, "abort_pos")
+				c.Clients = append(c.Clients[:pos], append([]c13Client{cl}, c.Clients[pos:]...)...)
+			}
+			fm := genValidParams(t, mode, 3, 2)
+			c.FollowUp = &genReq{Method: "POST", Body: fm.writeDoc(styleHexLower), Class: "valid:after-walk-away", Expect: "valid", Hash: fm.InputHash}
+		}
 		return c
 	}
 }
@@ -141,10 +159,18 @@ func runC13(c c13Case) Result {
 				scrapes[i] = ts.scrape(30 * time.Second)
 				return
 			}
+			if c.Clients[i].AbortMs > 0 {
+				results[i] = ts.doAbort(c.Clients[i].Req, time.Duration(c.Clients[i].AbortMs)*time.Millisecond)
+				return
+			}
 			results[i] = ts.doReq(c.Clients[i].Req)
 		}(i)
 	}
 	wg.Wait()
+	var followUp httpResult
+	if c.FollowUp != nil {
+		followUp = ts.doReq(*c.FollowUp)
+	}
 	limit := timeLimit{300 * time.Second} // race-instrumented proofs are slow; concurrency multiplies that
 	valid200, failing, overlapping := 0, 0, 0
 	tags := []string{}
@@ -156,6 +182,18 @@ func runC13(c c13Case) Result {
 			continue
 		}
 		res := results[i]
+		if cl.AbortMs > 0 {
+			// the client left: no response is owed; if one arrived in time it must still be the right one
+			if res.Err == "" {
+				if sig, msg := checkResponse(ts, cl.Req, res, limit); sig != "" {
+					return bad(c.Mode+"/concurrent", "concurrent:"+sig, "client %d of %d (%s, answered before it walked away): %s", i, len(c.Clients), cl.Req.Class, msg)
+				}
+				tags = append(tags, "walk-away:answered-first")
+			} else {
+				tags = append(tags, "walk-away:left")
+			}
+			continue
+		}
 		if sig, msg := checkResponse(ts, cl.Req, res, limit); sig != "" {
 			return bad(c.Mode+"/concurrent", "concurrent:"+sig, "client %d of %d (%s): %s", i, len(c.Clients), cl.Req.Class, msg)
 		}
@@ -180,6 +218,12 @@ func runC13(c c13Case) Result {
 				break
 			}
 		}
+	}
+	if c.FollowUp != nil {
+		if sig, msg := checkResponse(ts, *c.FollowUp, followUp, limit); sig != "" {
+			return bad(c.Mode+"/concurrent", "after-client-walked-away:"+sig, "the request sent after a round in which a client walked away: %s", msg)
+		}
+		tags = append(tags, "req:follow-up")
 	}
 	nontrivial := valid200 >= 2 && failing >= 1 && overlapping >= 3
 	return ok(fmt.Sprintf("%s/clients<=%d", c.Mode, bucket(len(c.Clients))), nontrivial).tag(tags...).tag(fmt.Sprintf("overlapping-requests:%d", bucket(overlapping)))
